@@ -5,6 +5,7 @@ import (
 	"reflect"
 	"sort"
 	"strings"
+	"sync"
 
 	"gitee.com/xuesongtao/protoc-go-valid/valid"
 
@@ -88,8 +89,37 @@ var globalFnNames = map[string]bool{}
 
 func customFn(level, name string) valid.CommonValidFn {
 	return func(errBuf *strings.Builder, validName, objName, fieldName string, tv reflect.Value) {
-		errBuf.WriteString(valid.GetJoinValidErrStr(objName, fieldName, valid.ToStr(tv.Interface()), valid.ExplainEn+" custom "+level+" "+name))
+		// the function keeps its message words in a slice of its own and spreads it into the helper,
+		// call after call (the helper must leave the caller's slice alone)
+		errBuf.WriteString(valid.GetJoinValidErrStr(objName, fieldName, valid.ToStr(tv.Interface()), customWords(level, name)...))
 	}
+}
+
+var customWordsState struct {
+	sync.Mutex
+	m map[string][]string
+}
+
+// customWords returns the message words of a custom function: one slice per function, created on
+// first use after freshState and then reused.
+func customWords(level, name string) []string {
+	customWordsState.Lock()
+	defer customWordsState.Unlock()
+	if customWordsState.m == nil {
+		customWordsState.m = map[string][]string{}
+	}
+	w := customWordsState.m[level+"/"+name]
+	if w == nil {
+		w = []string{valid.ExplainEn, "custom", level, name}
+		customWordsState.m[level+"/"+name] = w
+	}
+	return w
+}
+
+func resetCustomWords() {
+	customWordsState.Lock()
+	customWordsState.m = nil
+	customWordsState.Unlock()
 }
 
 func toRM(m map[string]string) valid.RM {
